@@ -443,14 +443,4 @@ def tasks(tier):
 
 
 def main(tier):
-  import time
-  t0 = time.time()
-  ts = tasks(tier)
-  results = H.run_tasks(ts, H.os.path.join(H.VERIF, "out", PID))
-  bounded = []
-  if tier == "thorough":
-    bounded.append(H.bounded_from_oracle("B7 native exhaustive enumeration (bounded stand-in, not counted as proved)",
-                                         H.native_oracle(PID, "thorough")))
-  return H.finish_check(PID, tier, results, t0, checker_cmd=f"./verify {PID} --tier {tier}",
-                        not_covered=NOT_COVERED, replay=lambda: H.native_oracle(PID, "quick"),
-                        bounded=bounded, structural=STRUCTURAL)
+  return H.standard_main(PID, tier, tasks(tier), not_covered=NOT_COVERED, structural=STRUCTURAL)
